@@ -172,6 +172,17 @@ type Steady struct {
 	FI int64                `plenc:"15,flat"`
 }
 
+// instantiated generic struct types (reflect cannot build these): the type name carries the arguments
+type Page[T any] struct {
+	Items []T `plenc:"1"`
+	Next  int `plenc:"2"`
+}
+
+type Pair[K comparable, V any] struct {
+	K K `plenc:"1"`
+	V V `plenc:"2"`
+}
+
 var staticTypes = map[string]reflect.Type{}
 
 func regStatic(v interface{}) {
@@ -182,7 +193,7 @@ func regStatic(v interface{}) {
 func init() {
 	for _, v := range []interface{}{MyI16(0), MyI32(0), MyI64(0), MyU8(0), MyU32(0), MyUint(0), MyInt(0), MyInt8(0), MyU16(0), MyU64(0), MyStr(""), MyBool(false),
 		MyF64(0), MyF32(0), MyBytes(nil), MyTime{}, MyStrs(nil), MyInts(nil), MyMap(nil),
-		Rec{}, MutA{}, MutB{}, RecMap{}, Inner{}, Outer{}, Inner2{}, BadRec{}, GoodViaBad{}, BadHolder{}, BadRec2{}, ProtoMapHolder{}, PSelf(nil), SSelf(nil), MSelf(nil), PSelfA(nil), PSelfB(nil), SSelfHolder{}, BadKindRec{}, GoodViaBadKind{}, BadKindHolder{}, PoolMaps{}, Emb{}} {
+		Rec{}, MutA{}, MutB{}, RecMap{}, Inner{}, Outer{}, Inner2{}, BadRec{}, GoodViaBad{}, BadHolder{}, BadRec2{}, ProtoMapHolder{}, PSelf(nil), SSelf(nil), MSelf(nil), PSelfA(nil), PSelfB(nil), SSelfHolder{}, BadKindRec{}, GoodViaBadKind{}, BadKindHolder{}, PoolMaps{}, Emb{}, Page[int]{}, Page[Inner2]{}, Pair[string, Page[int]]{}} {
 		regStatic(v)
 	}
 }
